@@ -350,6 +350,28 @@ impl Monitor for C08m {
                     }
                 }
             }
+            // the caller's maxima / minima apply to what the OWNER pays / receives (transfer fee included): exactly that is
+            // accepted, one unit tighter on either token is refused
+            if (inc || dec) && ua != ub && w.r.gen_range(0..3) == 0 && du.0 >= 0 && du.1 >= 0 {
+                let (pa, pb) = (du.0 as u64, du.1 as u64);
+                let mut i2 = obs.ix.clone();
+                i2.data[24..32].copy_from_slice(&pa.to_le_bytes());
+                i2.data[32..40].copy_from_slice(&pb.to_le_bytes());
+                let (o, _) = w.simulate(&obs.pre, &i2);
+                acc.count("limit_probe_sets_on_fee_pools");
+                if !o.ok() {
+                    fail(acc, "limit_rejected_wrongly_on_transfer_fee_pool", format!("limits equal to what the owner {} ({pa}, {pb}) were rejected: {:?}", if inc { "pays" } else { "receives" }, o.err));
+                }
+                for (off, x, tok) in [(24usize, pa, "A"), (32usize, pb, "B")] {
+                    let Some(x1) = (if inc { x.checked_sub(1) } else { x.checked_add(1) }) else { continue };
+                    let mut i3 = i2.clone();
+                    i3.data[off..off + 8].copy_from_slice(&x1.to_le_bytes());
+                    let (o, _) = w.simulate(&obs.pre, &i3);
+                    if o.ok() {
+                        fail(acc, "limit_not_enforced_on_transfer_fee_pool", format!("token {tok}: the owner {} {x} (transfer fee included) but a limit of {x1} was accepted", if inc { "pays" } else { "receives" }));
+                    }
+                }
+            }
             // liquidity derived from token maxima: the maxima are what the owner is prepared to PAY, so what may reach the
             // vault is each maximum less the token program's fee on it; the result is the largest liquidity whose cost fits both
             if by_amounts && ua != ub {
